@@ -62,6 +62,9 @@ def slotted(  # noqa: C901
     """
 
     def _slots_setstate(self, state):
+        # With no slot value set, the default state is the instance `__dict__` alone, not a pair.
+        if not isinstance(state, tuple):
+            state = (state,)
         for param_dict in filter(None, state):
             for slot, value in param_dict.items():
                 object.__setattr__(self, slot, value)
